@@ -11,3 +11,6 @@ pub assume_specification<T> [core::mem::replace::<T>] (dest: &mut T, src: T) -> 
 #[verifier::external_body]
 pub fn verif_format() -> (r: String)
 { unimplemented!() }
+// std: u64::from(bool) is 1 for true and 0 for false
+pub assume_specification [<u64 as core::convert::From<bool>>::from] (b: bool) -> (r: u64)
+    ensures r == (if b { 1u64 } else { 0u64 });
